@@ -226,12 +226,16 @@ func c13run(c *ctx, sc *c13Script) {
 		// the property: each number at most once (checked above), no gap except numbers consumed by a failed
 		// encode ("a number may be skipped but never reused"). Whether a failed encode consumes its number is the
 		// model's prediction and is compared in the trace rows, not here.
-		bad := len(missing) > len(encErrCalls)
+		// (a frame numbered at or beyond the stream's internal counter is not a violation by itself: the statement is
+		// about the numbers on the wire — reuse is checked above, gaps here)
 		for _, r := range fr {
-			if r.f.Seq >= N {
-				bad = true
+			for q := N; q < r.f.Seq; q++ {
+				if !seen[q] {
+					missing = append(missing, q)
+				}
 			}
 		}
+		bad := len(missing) > len(encErrCalls)
 		if bad {
 			o.V("C13 gap or overrun in the sequence numbers", detail(map[string]any{"stream": si, "final_seq": N, "missing": missing, "failed_encodes": len(encErrCalls)}))
 		}
